@@ -242,6 +242,7 @@ def frame_case(draw, tier, maxrows=300):
     by = [draw(st.integers(0, ng - 1)) if draw(st.integers(0, 2))
           else 0 for _ in range(nrow)]
     return {"cols": cols, "bc": bc, "wc": min(wc, 100.0), "by": by,
+            "draw": draw(st.integers(0, 3)),
             "container": draw(st.sampled_from(["frame", "array"]))}
 
 
@@ -319,6 +320,23 @@ def box_oracle(case):
         fin = v[np.isfinite(v)]
         if len(fin) and len(set(fin.tolist())) < len(fin):
             nt = True
+    # drawing (linear and log axis) leaves the summaries as they were
+    if nrow > 0 and case.get("draw", 0) == 0:
+        import matplotlib.pyplot as plt
+        bp = boxplot.Boxplot(data, box_coverage=bc, whiskers_coverage=wc)
+        before = bp.stats.copy()
+        for log in (False, True):
+            fig, ax = plt.subplots()
+            try:
+                bp.draw(ax=ax, logscale=log)
+            except Exception:
+                labels.append("draw:raised")
+            finally:
+                plt.close(fig)
+            if not before.equals(bp.stats):
+                raise Violation(f"Boxplot.draw(logscale={log}) changed "
+                                f"Boxplot.stats:\n{before}\n->\n{bp.stats}")
+        labels.append("stats-after-draw")
     # the function itself
     s = boxplot.boxplot_stats(cols[0].copy(), bc, wc)
     check_column(s, cols[0], bc, wc, "boxplot_stats")
@@ -362,6 +380,18 @@ def violin_oracle(case):
                             "column has >= 3 distinct finite values")
         labels.append("degenerate-column:raised")
         return {"nt": False, "labels": labels}
+    if case.get("draw", 0) == 0:
+        import matplotlib.pyplot as plt
+        before = vl.stats.copy()
+        fig, ax = plt.subplots()
+        try:
+            vl.draw(ax=ax)
+        except Exception:
+            labels.append("draw:raised")
+        finally:
+            plt.close(fig)
+        if not before.equals(vl.stats):
+            raise Violation("Violin.draw changed Violin.stats")
     st_ = vl.stats
     nt = False
     for j, v in enumerate(cols):
